@@ -4,7 +4,7 @@
    tmapz Quarter = quarter_map, tmapz Beat / tmapz Musical = beat_map in notated / musical mode,
    tinv = the inverse maps, on the timeline [p_first, p_last] of a part with >= 2 points.
    The same definitions are evaluated on every generated part by the correspondence check. *)
-From PV Require Import Lib.Base Model.C02 Gen.C02_Tab Proofs.C02_lib Proofs.C02.
+From PV Require Import Lib.Base Model.C02 Model.C02_Hist Gen.C02_Tab Proofs.C02_lib Proofs.C02.
 From Coq Require Import QArith.
 #[local] Open Scope Z_scope.
 
